@@ -1,12 +1,144 @@
-(* C14 — property theorems only (placeholder while the proofs are being written). *)
-From Coq Require Import PrimFloat QArith.
+(* C14 — property theorems only.  Bodies live in NumProofs / StatProofs / Proofs.
+   Conventions (Model.v): a float is the exact rational it denotes (f2q); where the code returns
+   sqrt(V) the target is V (TSqrt); "equal" means within 1e-9 of a condition-aware scale (tgt,
+   Meets); members of a bin are defined on the DATA (C05.Spec.members / Spec.chunks). *)
+From Coq Require Import PrimFloat QArith Qabs Sorting.Permutation.
 From EsVerif.Common Require Import Base.
-From EsVerif.C05 Require Import Model.
-From EsVerif.C14 Require Import Model Spec.
+From EsVerif.C05 Require Import Model Spec.
+From EsVerif.C14 Require Import Model Spec NumProofs StatProofs Proofs.
 
-Example C14_nonvacuous_model :
-  match binner_num true (mkCols [5;1;4;2;3;9;7]%float None None) None None 3 true with
-  | Ok b => n_hist b = [3; 4] /\ n_rev b = [3; 6; 10; 1; 3; 4; 2; 0; 6; 5]
-  | Err _ => False
-  end.
-Proof. vm_compute. split; reflexivity. Qed.
+(* ------------------------------------------------------------------ members of a bin *)
+(* binsize/nbin mode: slice i of the reverse indices computed by the model holds exactly the
+   members of bin i (the data within the limits whose bin index is i) and hist[i] is their number
+   (from C05_model_meets_spec; [contracts] are C05's decidable IEEE-order contracts, monitored). *)
+Theorem C14_members_of_bin : forall x lo hi m o,
+  histogram EngC x lo hi m = Ok o -> contracts x lo hi o ->
+  let p := o_params o in
+  Z.of_nat (length (o_hist o)) = p_nbin p
+  /\ forall i, 0 <= i < p_nbin p ->
+       Permutation (bin_slice (o_rev o) i) (members x lo hi (p_dmin p) (p_bsize p) i)
+       /\ Z.of_nat (length (bin_slice (o_rev o) i)) = zget (o_hist o) i.
+Proof. exact members_of_bin. Qed.
+
+(* ------------------------------------------------------------------ statistics *)
+(* One bin: every number the model demands for member values xs (second variable ys, weights ws,
+   all weights positive) implies the textbook quantity: mean, std^2 = Sum (v-mean)^2/n,
+   err^2 = std^2/n for n >= 2 (no statement for n = 1), median, whist = Sum w, weighted mean,
+   weighted deviation, 1/sqrt(Sum w) and sqrt(Sum w^2 (v-m)^2)/Sum w; sentinel -9999 (whist 0)
+   for the empty bin. *)
+Theorem C14_row_refines_direct : forall xs ys ws, wpos ws ->
+  Forall2 (fun tm td => forall f, meets f tm = true -> Meets f td)
+          (row_of true xs ys ws) (row_direct xs ys ws).
+Proof. exact row_ref. Qed.
+
+(* The textbook row does not depend on the order in which the members are listed. *)
+Theorem C14_row_order_irrelevant : forall c ks ks',
+  same_len c = true -> inrange c ks -> Permutation ks ks' ->
+  Forall2 (fun t t' => forall f, Meets f t -> Meets f t')
+          (row_direct_at (qcols_of c) ks) (row_direct_at (qcols_of c) ks').
+Proof. exact row_direct_at_perm. Qed.
+
+(* Model => property, for any notion of membership: reported rows that agree with what the model
+   computes from reverse indices whose slices are the members (in any order) satisfy the
+   statement about the members. *)
+Theorem C14_stats_of_members : forall mem nbin c rev rows,
+  cols_ok c = true -> mem_inrange c mem nbin -> 0 <= nbin ->
+  (forall i, 0 <= i < nbin -> Permutation (bin_slice rev i) (mem i)) ->
+  rows_meet rows (calc_rows true c nbin rev) = true ->
+  stats_ok mem nbin c rows.
+Proof. exact stats_of_members. Qed.
+
+(* binsize/nbin mode end to end: Binner(x, y, weights).dohist(binsize|nbin, min, max) as modelled *)
+Theorem C14_stats_are_of_members : forall c rv lo hi m b o rows,
+  binner true c rv lo hi m = Ok b -> dorev c rv = true -> cols_ok c = true ->
+  histogram EngC (c_x c) lo hi m = Ok o -> contracts (c_x c) lo hi o ->
+  rows_meet rows (b_rows b) = true ->
+  let p := o_params o in
+  stats_ok (members (c_x c) lo hi (p_dmin p) (p_bsize p)) (p_nbin p) c rows.
+Proof. exact binned_stats_of_members. Qed.
+
+(* ------------------------------------------------------------------ checkers *)
+(* what the correspondence run evaluates on the real outputs *)
+Theorem C14_binned_check_sound : forall c lo hi dmin bsize nbin es rows,
+  cols_ok c = true ->
+  binned_check c lo hi dmin bsize nbin es rows = true -> binned_ok c lo hi dmin bsize nbin es rows.
+Proof. exact binned_check_sound. Qed.
+
+Theorem C14_num_check_sound : forall c lo hi k merge hist rev low high rows,
+  cols_ok c = true ->
+  num_check c lo hi k merge hist rev low high rows = true ->
+  num_ok c lo hi k merge hist rev low high rows.
+Proof. exact num_check_sound. Qed.
+
+(* ------------------------------------------------------------------ equal-occupancy bins *)
+(* [chunks]: consecutive, non-empty, together the whole selection in order; every bin but the
+   last holds exactly nperbin data; the last holds 1..nperbin (without merging) or fewer than
+   2*nperbin (a short remainder merged into it). *)
+Theorem C14_chunks_concat : forall fuel k merge l, (1 <= k)%nat -> (length l <= fuel)%nat ->
+  concat (chunks fuel k merge l) = l.
+Proof. intros. apply chunks_concat; assumption. Qed.
+
+Theorem C14_chunks_sizes : forall fuel k merge l, (1 <= k)%nat -> (length l <= fuel)%nat ->
+  forall i, (i < length (chunks fuel k merge l))%nat ->
+    let b := nth i (chunks fuel k merge l) [] in
+    if (S i <? length (chunks fuel k merge l))%nat then length b = k
+    else (1 <= length b)%nat /\ (if merge then (length b < 2 * k)%nat else (length b <= k)%nat).
+Proof. intros fuel k merge l Hk Hl. apply chunks_sizes; assumption. Qed.
+
+(* ------------------------------------------------------------------ the repaired defect *)
+(* As found (util.py:410) a single-member bin stored x*w in whist: for x = 0.5, w = 2 the as-found
+   rule accepts whist = 1.0, which is not the summed weight 2. *)
+Theorem C14_whist_unpatched_refuted :
+  exists f, meets f (whist_tgt false [1 # 2] [2 # 1]%Q) = true
+            /\ ~ Meets f (TLin (Sum [2 # 1]) (Sum (map Qabs [2 # 1])))%Q.
+Proof.
+  exists 1%float. split; [vm_compute; reflexivity|].
+  intros [_ H]. unfold Meets_q, close_lin in H. vm_compute in H. apply H. reflexivity.
+Qed.
+
+(* As found (util.py:413-414) the weighted errors of a single-member bin were the mean. *)
+Theorem C14_werr_unpatched_refuted :
+  exists f, meets f (nth 2 (wblock false [5 # 2] [4 # 1]%Q) TAny) = true
+            /\ ~ Meets f (nth 2 (wblock_direct [5 # 2] [4 # 1]%Q) TAny).
+Proof.
+  exists 2.5%float. split; [vm_compute; reflexivity|].
+  intros [_ H]. vm_compute in H. destruct H as [_ [_ [_ H]]]. apply H. reflexivity.
+Qed.
+
+(* ------------------------------------------------------------------ non-vacuity *)
+(* real outputs of the repaired code on x = [0.5,1.5,1.75,2.5], weights [2,3,4,5], binsize 1:
+   the hypotheses of C14_stats_are_of_members hold and the checker accepts *)
+Example C14_nonvacuous_binned :
+  let c := mkCols [0.5; 1.5; 1.75; 2.5]%float None (Some [2; 3; 4; 5]%float) in
+  let rows := [[0x1.0000000000000p-1; 0; 0x1.0000000000000p-1; 0x1.0000000000000p-1; 2;
+                0x1.0000000000000p-1; 0; 0x1.6a09e667f3bccp-1; 0];
+               [0x1.a000000000000p+0; 0x1.0000000000000p-3; 0x1.6a09e667f3bccp-4; 0x1.a000000000000p+0; 7;
+                0x1.a492492492492p+0; 0x1.fabfa2e1bc555p-4; 0x1.83091e6a7f7e6p-2; 0x1.62a66ec3df170p-4];
+               [2.5; 0; 2.5; 2.5; 5; 2.5; 0; 0x1.c9f25c5bfedd9p-2; 0]]%float in
+  exists b o, binner true c true None None (ByBinsize 1%float) = Ok b
+    /\ histogram EngC (c_x c) None None (ByBinsize 1%float) = Ok o
+    /\ cols_ok c = true /\ contracts_b (c_x c) None None o = true
+    /\ b_hist b = [1; 2; 1] /\ rows_meet rows (b_rows b) = true
+    /\ stats_check (members (c_x c) None None 0.5%float 1%float) 3 c rows = true.
+Proof.
+  intros c rows. eexists. eexists. split; [vm_compute; reflexivity|].
+  split; [vm_compute; reflexivity|]. vm_compute. repeat split; reflexivity.
+Qed.
+
+(* real outputs of Binner([5,1,4,2,3,9,7], y=[1..7]).dohist(nperbin=3): 7 data, bins of 3 and 3+1 *)
+Example C14_nonvacuous_nperbin :
+  let c := mkCols [5; 1; 4; 2; 3; 9; 7]%float (Some [1; 2; 3; 4; 5; 6; 7]%float) None in
+  let rows := [[2; 0x1.a20bd700c2c3ep-1; 0x1.e2b7dddfefa67p-2; 2;
+                0x1.d555555555555p+1; 0x1.3f49c0b9ad4dbp+0; 0x1.70aea090565aep-1; 4];
+               [6.25; 0x1.eb97e455b9edbp+0; 0x1.eb97e455b9edbp-1; 6;
+                4.25; 0x1.3142b30a929abp+1; 0x1.3142b30a929abp+0; 4.5]]%float in
+  (exists b, binner_num true c None None 3 true = Ok b
+     /\ n_hist b = [3; 4] /\ n_rev b = [3; 6; 10; 1; 3; 4; 2; 0; 6; 5]
+     /\ rows_meet rows (n_rows b) = true)
+  /\ num_check c None None 3 true [3; 4] [3; 6; 10; 1; 3; 4; 2; 0; 6; 5] [1; 4]%float [3; 9]%float rows = true
+  /\ chunks 7 3 true [1; 3; 4; 2; 0; 6; 5] = [[1; 3; 4]; [2; 0; 6; 5]]
+  /\ chunks 7 3 false [1; 3; 4; 2; 0; 6; 5] = [[1; 3; 4]; [2; 0; 6]; [5]].
+Proof.
+  intros c rows. split; [eexists; split; [vm_compute; reflexivity|]; vm_compute; repeat split; reflexivity|].
+  vm_compute. repeat split; reflexivity.
+Qed.
